@@ -108,8 +108,15 @@ func c12sScenarios(thorough bool) []c12sScenario {
 	cl := [][]string{nil, {"cl"}}
 	// proposals, NotifyCommit off: client + step worker + apply worker + closer
 	for _, c := range [][]string{c12sCP2, c12sCP1} {
-		for _, st := range [][]string{{"hp"}, {"hp", "dp"}, {"hp", "tg"}, {"tg", "hp"}, {"hp", "tg", "hp"}} {
+		steppers := [][]string{{"hp"}, {"hp", "dp"}, {"hp", "tg"}, {"tg", "hp"}}
+		if thorough {
+			steppers = append(steppers, []string{"hp", "tg", "hp"}) // the largest spaces: thorough tier only
+		}
+		for _, st := range steppers {
 			for _, ap := range [][]string{nil, {"ap"}, {"ap", "ap"}} {
+				if !thorough && len(ap) == 2 && len(st) == 2 && st[0] == "tg" {
+					continue
+				}
 				for _, k := range cl {
 					add("proposal", false, [][]string{c}, st, nil, ap, k)
 				}
@@ -183,7 +190,6 @@ func c12sScenarios(thorough bool) []c12sScenario {
 			}
 		}
 	}
-	_ = thorough
 	return out
 }
 
